@@ -56,6 +56,8 @@ def dispatch (op : String) (payload : Json) : R Json :=
   | "results_project" => C14.handle payload
   | "pipeline2" => Pipeline2.handle payload
   | "project" => Project.handle payload
+  | "star_root" => C01.handleRoot payload
+  | "star_file" => C01.handleFile payload
   | _ => .error s!"unknown op {op}"
 
 partial def loop (h : IO.FS.Stream) (out : IO.FS.Stream) : IO Unit := do
